@@ -187,6 +187,14 @@ def _apply_unit(repo: str, header: str, body_lines: List[str], tpl_name: str) ->
                 rule = d.split(":", 1)[1]
                 p, r = rule.split("==>", 1)
                 sections.append(("sigrw", p.strip(), [r.strip()]))
+            elif d.startswith("guard:"):
+                # `guard: self.F.write() as LK w` / `... .read() as LK r`: lock guards keep their scope.  The `let X = <expr>;`
+                # becomes `self.LK.acquire_w(); let X = &mut self.F;` and `self.LK.release_w();` is inserted where the guard
+                # is dropped: at the end of the enclosing block and before every `return` inside it.
+                mg = re.match(r"guard:\s*(.+?)\s+as\s+(\w+)\s+([wr])\s*$", d)
+                if not mg:
+                    raise ExtractError("bad guard rule in %s/%s: %s" % (tpl_name, uid, d))
+                sections.append(("guard", mg.group(1).strip(), [mg.group(2), mg.group(3)]))
             elif d.startswith("rwin:"):
                 # scoped rewrite: `rwin: OUTER (capturing $in) ==> INNER ==> REPL` applies INNER ==> REPL only inside
                 # the text captured as $in by each match of OUTER
@@ -325,6 +333,10 @@ def _apply_unit(repo: str, header: str, body_lines: List[str], tpl_name: str) ->
                 raise ExtractError("%s: signature rewrite pattern not found in %s (%s): %s" % (uid, info.item, info.file, arg))
             info.rewrites.append(("signature: " + arg + " ==> " + lines[0], n))
             sig = sig2
+    for kind, arg, lines in sections:
+        if kind == "guard":
+            body, n_g = _apply_guard(uid, body, arg, lines[0], lines[1])
+            info.rewrites.append(("guard scope: " + arg + " as " + lines[0] + " (" + lines[1] + ")", n_g))
     for kind, arg, lines in sections:
         if kind == "rwin":
             ms = rt.find_matches(body, arg)
@@ -508,6 +520,79 @@ def _requires_canary(uid: str, sig: str, spec: str) -> str:
         return ""
     csig = sig[:m.start(1)] + "canary_req_" + re.sub(r"[^A-Za-z0-9_]", "_", uid) + sig[m.end(1):]
     return "\n" + csig + "\n    " + req + ",\n{ assert(false); vstd::pervasive::unreached() }\n"
+
+
+def _apply_guard(uid: str, body: str, expr: str, lk: str, mode: str) -> Tuple[str, int]:
+    """See the `guard:` directive.  Raises ExtractError (=> undecided) for shapes it cannot place a release for."""
+    etoks = [t.text for t in rt.tokenize(expr)]
+    mfield = re.match(r"self\s*\.\s*(\w+)\s*\.", expr)
+    if not mfield:
+        raise ExtractError("%s: guard expression must start with self.<field>.: %s" % (uid, expr))
+    field = mfield.group(1)
+    count = 0
+    while True:
+        toks = rt.tokenize(body)
+        hit = None
+        for i, t in enumerate(toks):
+            if t.kind == "id" and t.text == "let":
+                j = i + 1
+                if j < len(toks) and toks[j].text == "mut":
+                    j += 1
+                if j + 1 < len(toks) and toks[j].kind == "id" and toks[j + 1].text == "=":
+                    seg = [x.text for x in toks[j + 2:j + 2 + len(etoks)]]
+                    k = j + 2 + len(etoks)
+                    if seg == etoks and k < len(toks) and toks[k].text == ";":
+                        hit = (i, j, k)
+                        break
+        if hit is None:
+            break
+        i, j, k = hit
+        name = toks[j].text
+        # enclosing block
+        depth, ob = 0, None
+        for q in range(i - 1, -1, -1):
+            if toks[q].text == "}":
+                depth += 1
+            elif toks[q].text == "{":
+                if depth == 0:
+                    ob = q
+                    break
+                depth -= 1
+        if ob is None:
+            raise ExtractError("%s: guard `%s` has no enclosing block" % (uid, name))
+        cb = rt.match_close(toks, ob)
+        last = toks[cb - 1].text
+        if last not in (";", "}", "{"):
+            raise ExtractError("%s: the scope of guard `%s` ends in a tail expression; cannot place the release" % (uid, name))
+        rel = "self.%s.release_%s();" % (lk, mode)
+        edits = [(toks[cb].start, toks[cb].start, " " + rel + " ")]
+        q = k + 1
+        while q < cb:
+            t = toks[q]
+            if t.text == "?":
+                raise ExtractError("%s: `?` inside the scope of guard `%s`; cannot place the release" % (uid, name))
+            if t.kind == "id" and t.text == "return":
+                d2, e = 0, None
+                for z in range(q, cb):
+                    if toks[z].text in "([{":
+                        d2 += 1
+                    elif toks[z].text in ")]}":
+                        d2 -= 1
+                    elif toks[z].text == ";" and d2 == 0:
+                        e = z
+                        break
+                if e is None:
+                    raise ExtractError("%s: unterminated return inside guard scope" % uid)
+                edits.append((toks[q].start, toks[q].start, "{ " + rel + " "))
+                edits.append((toks[e].end, toks[e].end, " }"))
+                q = e
+            q += 1
+        acq = "self.%s.acquire_%s(); let %s = %sself.%s;" % (lk, mode, name, "&mut " if mode == "w" else "&", field)
+        edits.append((toks[i].start, toks[k].end, acq))
+        for a, b, txt in sorted(edits, key=lambda x: -x[0]):
+            body = body[:a] + txt + body[b:]
+        count += 1
+    return body, count
 
 
 def _extract_item(repo: str, header: str, tpl_name: str) -> Tuple[str, UnitInfo]:
